@@ -92,6 +92,9 @@ class Gateway:
             sensorid = self._get_next_id()
         if sensorid is not None and sensorid not in self.sensors:
             self.sensors[sensorid] = Sensor(sensorid)
+            # A new node, e.g. one that was only handed an id, must be persisted.
+            if self.tasks is not None and self.tasks.persistence:
+                self.tasks.persistence.need_save = True
         return sensorid if sensorid in self.sensors else None
 
     def create_message_to_set_sensor_value(
